@@ -28,6 +28,9 @@ THEOREMS = [
     "SleapVerif.C14.head_in_channels_eq_decoder_out",
     "SleapVerif.C14.selected_stride_eq_head_stride",
     "SleapVerif.C14.output_channels",
+    "SleapVerif.C14.paf_channels_eq_two_len",
+    "SleapVerif.C14.confmap_channels_eq_len",
+    "SleapVerif.C14.paf_channels_no_dedup",
     "SleapVerif.C14.enc_spatial_exact",
     "SleapVerif.C14.dec_spatial_exact",
     "SleapVerif.C14.output_spatial",
@@ -65,13 +68,35 @@ def real_max_stride(c):
     return c["ms"] if c["fam"] == "unet" else c["stem"] * 8
 
 
+def parts_of(c):
+    """configured part list as ids (name = f"n{id}"; a repeated id is a repeated name)"""
+    return list(c["part_ids"]) if "part_ids" in c else list(range(c["parts"]))
+
+
+def edges_of(c):
+    """configured edge list as (src id, dst id) pairs — may hold reversed and exact duplicates"""
+    return [tuple(e) for e in c["edge_list"]] if "edge_list" in c else [(i, i + 1) for i in range(c["edges"])]
+
+
 def head_list(c):
-    """[(output_stride, channels)] in the order Model builds the heads"""
+    """[(output_stride, channels)] in the order Model builds the heads; the contracted channel
+    counts restated independently of the model: len(part_names) | 1 | 2 x len(edges) (of the LISTS as
+    configured, no de-duplication — generate_pafs makes one field per listed edge)"""
     if c["kind"] == "centroid":
         return [(c["hos"], 1)]
     if c["kind"] == "bottomup":
-        return [(c["hos"], c["parts"]), (c["pos"], 2 * c["edges"])]
-    return [(c["hos"], c["parts"])]
+        return [(c["hos"], len(parts_of(c))), (c["pos"], 2 * len(edges_of(c)))]
+    return [(c["hos"], len(parts_of(c)))]
+
+
+def head_specs(c):
+    """head specs for the Lean driver: the model computes the channel counts from the lists"""
+    cm = f"c {c['hos']} " + lst(parts_of(c))
+    if c["kind"] == "centroid":
+        return [f"k {c['hos']}"]
+    if c["kind"] == "bottomup":
+        return [cm, f"p {c['pos']} " + lst(edges_of(c), lambda e: f"{e[0]} {e[1]}")]
+    return [cm]
 
 
 def doc_valid(c):
@@ -110,9 +135,9 @@ def signatures(c):
 def model_line(c, calls):
     p, q = RATES[c["rate"]]
     var = VARIANTS[c["fam"]].index(c["variant"]) if c["fam"] != "unet" else 0
-    hl = head_list(c)
+    hl = head_specs(c)
     return (f"model {c['fam']} {var} {c['filters']} {p} {q} {c['ms']} {c['bos']} {c['stem'] or 0} {c['cpb']} "
-            f"{int(c['mid'])} {int(c['upi'])} 1 {int(FIX['mid'])} {int(FIX['wrap'])} " + lst(hl, lambda h: f"{h[0]} {h[1]}") + " "
+            f"{int(c['mid'])} {int(c['upi'])} 1 {int(FIX['mid'])} {int(FIX['wrap'])} " + lst(hl) + " "
             + lst(calls, lambda hw: f"{hw[0]} {hw[1]}"))
 
 
@@ -128,7 +153,19 @@ def cost(c):
 def gen_cfg(rng, fam=None, small=True):
     fam = fam or rng.choice(["unet"] * 6 + ["convnext", "swint"])
     kind = rng.choice(KINDS)
-    c = dict(fam=fam, kind=kind, parts=rng.choice([1, 2, 3, 5, 13]), edges=rng.choice([1, 2, 4]),
+    n_parts = rng.choice([1, 2, 3, 5, 13])
+    part_ids = list(range(n_parts))
+    if rng.random() < 0.25:  # repeated part names (the heads accept any list)
+        part_ids = [rng.randrange(max(1, n_parts - 1)) for _ in range(n_parts)]
+    n_nodes = max(n_parts, 2)
+    edge_list = [(i, i + 1) for i in range(rng.choice([1, 2, 4]))] if rng.random() < 0.4 else \
+        [tuple(rng.sample(range(max(n_nodes, 3)), 2)) for _ in range(rng.choice([1, 2, 3, 5]))]
+    if rng.random() < 0.6:  # reversed duplicates, exact duplicates, shuffled (never self-loops)
+        for e in rng.sample(edge_list, rng.randrange(1, len(edge_list) + 1)):
+            edge_list.append((e[1], e[0]) if rng.random() < 0.6 else e)
+        rng.shuffle(edge_list)
+    c = dict(fam=fam, kind=kind, parts=n_parts, edges=len(edge_list), part_ids=part_ids,
+             edge_list=[list(e) for e in edge_list],
              cpb=rng.choice([1, 2, 2, 2, 3]), upi=rng.random() < 0.6, mid=rng.random() < 0.8,
              rate=rng.choice(["1", "3/2", "2", "2"]), filters=0, variant="", float_rate=rng.random() < 0.2)
     if fam == "unet":
@@ -189,7 +226,7 @@ def build_real(c):
         bc = dict(in_channels=1, model_type=c["variant"], arch=None, patch_size=[4, 4], window_size=[7, 7],
                   kernel_size=3, filters_rate=rate, convs_per_block=c["cpb"], up_interpolate=c["upi"],
                   stem_patch_stride=c["stem"], output_stride=c["bos"], max_stride=c["ms"])
-    parts = [f"n{i}" for i in range(c["parts"])]
+    parts = [f"n{i}" for i in parts_of(c)]
     if c["kind"] == "centroid":
         hc = {"confmaps": dict(anchor_part=None, sigma=2.0, output_stride=c["hos"], loss_weight=1.0)}
     else:
@@ -198,7 +235,7 @@ def build_real(c):
             cm["anchor_part"] = None
         hc = {"confmaps": cm}
         if c["kind"] == "bottomup":
-            hc["pafs"] = dict(edges=[(f"e{i}", f"e{i + 1}") for i in range(c["edges"])], sigma=4.0,
+            hc["pafs"] = dict(edges=[[f"n{u}", f"n{v}"] for u, v in edges_of(c)], sigma=4.0,
                               output_stride=c["pos"], loss_weight=1.0)
     from sleap_nn.architectures.model import Model
 
@@ -282,19 +319,18 @@ def target_shapes(c, h, w):
     from sleap_nn.data.confidence_maps import generate_confmaps, generate_multiconfmaps
     from sleap_nn.data.edge_maps import generate_pafs
 
-    n = c["parts"]
+    n = len(parts_of(c))
     if c["kind"] in ("single_instance", "centered_instance"):
         inst = torch.rand(1, n, 2) * min(h, w)
         return [tuple(generate_confmaps(inst, (h, w), 2.0, c["hos"]).shape[1:])]
     if c["kind"] == "centroid":
         cen = torch.rand(1, 2, 2) * min(h, w)
         return [tuple(generate_multiconfmaps(cen, (h, w), 2, 2.0, c["hos"], is_centroids=True).shape[1:])]
-    E = c["edges"]
-    nn = max(n, E + 1)
+    E = edges_of(c)  # the list as configured: generate_pafs makes one field per listed edge
+    nn = max([n] + [max(e) + 1 for e in E])
     inst = torch.rand(1, 2, nn, 2) * (min(h, w) - 2) + 1
     cm = generate_multiconfmaps(inst[:, :, :n], (h, w), 2, 2.0, c["hos"])
-    pf = generate_pafs(inst, (h, w), 4.0, c["pos"], edge_inds=torch.tensor([(i, i + 1) for i in range(E)]),
-                       flatten_channels=True)
+    pf = generate_pafs(inst, (h, w), 4.0, c["pos"], edge_inds=torch.tensor(E), flatten_channels=True)
     return [tuple(cm.shape[1:]), tuple(pf.shape)]
 
 
@@ -345,6 +381,82 @@ def oracle(c, calls, made, info, B):
     if not info["batch_ok"] or not info["finite"]:
         return "batch dimension changed or non-finite output"
     return None
+
+
+FRAME_KINDS = ["unit", "raw255", "uint8like", "negative", "large", "const0", "const1", "const255", "constneg"]
+
+
+def make_frame(kind, seed, h, w):
+    """one (1, 1, h, w) float32 frame, rebuilt exactly from (kind, seed, h, w)"""
+    import torch
+
+    g = torch.Generator().manual_seed(seed)
+    if kind == "unit":
+        return torch.rand(1, 1, h, w, generator=g)
+    if kind == "raw255":
+        return torch.rand(1, 1, h, w, generator=g) * 255.0
+    if kind == "uint8like":
+        return torch.randint(0, 256, (1, 1, h, w), generator=g).float()
+    if kind == "negative":
+        return torch.randn(1, 1, h, w, generator=g) * 3.0 - 1.0
+    if kind == "large":
+        return torch.rand(1, 1, h, w, generator=g) * 1.0e4
+    return torch.full((1, 1, h, w), {"const0": 0.0, "const1": 1.0, "const255": 255.0, "constneg": -2.5}[kind])
+
+
+def batch_independence_tests(c, rng, tol=1e-4):
+    """NUMERIC CLAUSE of C14 (a test, not a theorem): in eval mode the output for a frame must not
+    depend on its batch-mates.  Mixed-range batches: a frame alone vs inside batches whose other
+    frames have different value ranges (normalised [0,1], raw 0..255, integer-valued, negative,
+    large, constant), at every position, and permuted.  Tolerance `tol * max(1, max|y_alone|)` with
+    tol = 1e-4 (observed noise on the unchanged tree <= 7e-7; a batch-dependent rescaling gives >= 3e-2).
+    -> (list of failures, each with the concrete batch spec; stats)"""
+    import torch
+
+    m = build_real(c)
+    m.eval()
+    S = real_max_stride(c)
+    h, w = S * rng.choice([1, 2]), S * rng.choice([1, 1, 2])
+    specs = {k: (k, rng.randrange(2 ** 31), h, w) for k in FRAME_KINDS}
+    frames = {k: make_frame(*specs[k]) for k in FRAME_KINDS}
+    fails, worst, n = [], 0.0, 0
+
+    def rel(a, b):
+        d = 0.0
+        for k in a:
+            scale = max(1.0, float(a[k].abs().max()))
+            d = max(d, float((a[k] - b[k]).abs().max()) / scale)
+        return d
+
+    with torch.no_grad():
+        m(frames["unit"])  # put the pooling layers in their steady state first
+        alone = {k: m(frames[k]) for k in FRAME_KINDS}
+        targets = ["unit", "unit", "const1"] + rng.sample(FRAME_KINDS, 3)
+        for t in targets:
+            mates = rng.sample([k for k in FRAME_KINDS if k != t], 2)
+            if t in ("unit", "const1", "const0") and not set(mates) & {"raw255", "uint8like", "large", "const255"}:
+                mates[0] = rng.choice(["raw255", "uint8like", "large", "const255"])
+            for order in ([t, mates[0]], [mates[0], t], [mates[0], t, mates[1]], [mates[1], mates[0], t]):
+                y = m(torch.cat([frames[k] for k in order], 0))
+                i = order.index(t)
+                d = rel(alone[t], {k: v[i:i + 1] for k, v in y.items()})
+                n += 1
+                worst = max(worst, d)
+                if not d <= tol:
+                    fails.append({"target_frame": t, "position": i, "batch": [list(specs[k]) for k in order],
+                                  "relative_deviation": d,
+                                  "frame_ranges": {k: [float(frames[k].min()), float(frames[k].max())] for k in order}})
+        # permutation equivariance of a whole mixed batch
+        order = rng.sample(FRAME_KINDS, 3)
+        perm = [order[2], order[0], order[1]]
+        ya, yb = m(torch.cat([frames[k] for k in order], 0)), m(torch.cat([frames[k] for k in perm], 0))
+        d = rel({k: v[[2, 0, 1]] for k, v in ya.items()}, yb)
+        n += 1
+        worst = max(worst, d)
+        if not d <= tol:
+            fails.append({"target_frame": "permutation", "batch": [list(specs[k]) for k in order],
+                          "permuted": [list(specs[k]) for k in perm], "relative_deviation": d})
+    return fails, {"comparisons": n, "worst_relative_deviation": worst}
 
 
 def determinism_tests(c, rng, tol=1e-5):
@@ -576,7 +688,7 @@ def main(chk: Check):
                 continue
             for _ in range(40):
                 c = dict(c0)
-                for k in rng.sample(["bos", "hos", "pos", "filters", "rate", "stem", "upi", "kind"], 2):
+                for k in rng.sample(["bos", "hos", "pos", "filters", "rate", "stem", "upi", "kind", "edge_list", "part_ids"], 2):
                     c[k] = gen_cfg(rng, fam=c0["fam"])[k]
                 if c["fam"] != "unet":
                     c["stem"] = c["stem"] or 2
@@ -610,6 +722,37 @@ def main(chk: Check):
             chk.fail("C14 eval-mode determinism fails: " + "; ".join(fails), {"cfg": c}, d, [])
     det["label"] = "TESTS (floating-point facts about torch kernels; not covered by a theorem), tolerance 1e-5"
     chk.extra["eval_determinism_tests"] = det
+
+    # (5) batch independence with mixed-range batches, every backbone family (numeric clause: a TEST)
+    bt = {"label": "TEST of the numeric clause (eval output of a frame is independent of its batch-mates), "
+                   "mixed value ranges " + "/".join(FRAME_KINDS) + "; relative tolerance 1e-4; not a theorem",
+          "configs": 0, "comparisons": 0, "worst_relative_deviation": 0.0, "failures": 0, "families": {}}
+    fixed = [dict(fam="unet", kind="bottomup", parts=3, edges=2, cpb=2, upi=True, mid=True, rate="2", filters=8,
+                  variant="", float_rate=False, ms=16, stem=None, bos=2, hos=2, pos=4),
+             dict(fam="convnext", kind="centroid", parts=1, edges=1, cpb=2, upi=True, mid=True, rate="2", filters=0,
+                  variant="tiny", float_rate=False, ms=16, stem=2, bos=2, hos=2, pos=2),
+             dict(fam="swint", kind="single_instance", parts=2, edges=1, cpb=2, upi=False, mid=True, rate="2",
+                  filters=0, variant="tiny", float_rate=False, ms=16, stem=2, bos=4, hos=4, pos=4)]
+    extra_cfgs, tries = [], 0
+    while len(extra_cfgs) < chk.n(3, 30) and tries < 300:
+        tries += 1
+        c = gen_cfg(rng)
+        if doc_valid(c) and not known_region(c) and cost(c) <= 800 and (c["fam"] == "unet" or c["rate"] == "2"):
+            extra_cfgs.append(c)
+    for c in fixed + extra_cfgs:
+        fails, st = batch_independence_tests(c, rng)
+        bt["configs"] += 1
+        bt["comparisons"] += st["comparisons"]
+        bt["worst_relative_deviation"] = max(bt["worst_relative_deviation"], st["worst_relative_deviation"])
+        bt["families"][c["fam"]] = bt["families"].get(c["fam"], 0) + 1
+        chk.case(None, None, tags=["batch_independence_test:" + c["fam"]])
+        for f in fails[:2]:
+            bt["failures"] += 1
+            chk.fail(f"C14 numeric clause fails: eval output of frame '{f['target_frame']}' changes with its "
+                     f"batch-mates (relative deviation {f['relative_deviation']:.3g} > 1e-4)",
+                     {"cfg": c, "batch": f, "rebuild": "harness/c14.py make_frame(kind, seed, h, w)"},
+                     f["relative_deviation"], [])
+    chk.extra["batch_independence_tests"] = bt
     chk.extra["excluded_region_cases"] = {
         "offgrid_inputs (not multiples of max stride; oracle only: keys/channels/batch/finite)":
             {k.split(":", 1)[1]: v for k, v in chk.hist.items() if k.startswith("excluded_region(offgrid):")},
